@@ -9,6 +9,7 @@ package main
 import (
 	"fmt"
 	"go/ast"
+	"go/constant"
 	"go/token"
 	"go/types"
 	"os"
@@ -1285,7 +1286,19 @@ func c12Facts(g *FG, l Loc) []Atom { return c12FactsOf(g, l, g.Guards(l)) }
 func c12FactsOf(g *FG, l Loc, guards []Guard) []Atom {
 	var out []Atom
 	for _, gd := range guards {
-		atoms := condAtoms(g.Info, gd.Cond, gd.Pol)
+		cond := gd.Cond
+		if cond.Tag == nil && cond.Alts == nil && cond.Expr != nil {
+			// constant operands of && / || (`true && x < 8` after a constant flag of a table row was substituted)
+			// are folded away first: !(true && x < 8) states x >= 8
+			if fe, isConst, _ := c12FoldBool(g.Info, cond.Expr); isConst {
+				continue
+			} else if fe != cond.Expr {
+				cc := *cond
+				cc.Expr = fe
+				cond = &cc
+			}
+		}
+		atoms := condAtoms(g.Info, cond, gd.Pol)
 		if len(atoms) == 0 {
 			continue
 		}
@@ -1301,6 +1314,52 @@ func c12FactsOf(g *FG, l Loc, guards []Guard) []Atom {
 		out = append(out, atoms...)
 	}
 	return out
+}
+
+// c12FoldBool removes constant boolean operands from a condition: true && X = X, false || X = X, false && X = false,
+// true || X = true, !const. Returns the simplified expression (the same node when nothing changed), or isConst with
+// its value when the whole condition is constant. New nodes are built only above the (type-checked) leaves.
+func c12FoldBool(info *types.Info, e ast.Expr) (out ast.Expr, isConst, val bool) {
+	e0 := e
+	e = unparen(e)
+	if tv, ok := info.Types[e]; ok && tv.Value != nil && tv.Value.Kind() == constant.Bool {
+		return e0, true, constant.BoolVal(tv.Value)
+	}
+	switch t := e.(type) {
+	case *ast.UnaryExpr:
+		if t.Op == token.NOT {
+			x, c, v := c12FoldBool(info, t.X)
+			if c {
+				return e0, true, !v
+			}
+			if x != t.X {
+				return &ast.UnaryExpr{OpPos: t.OpPos, Op: token.NOT, X: x}, false, false
+			}
+		}
+	case *ast.BinaryExpr:
+		if t.Op == token.LAND || t.Op == token.LOR {
+			x, cx, vx := c12FoldBool(info, t.X)
+			y, cy, vy := c12FoldBool(info, t.Y)
+			absorbing := t.Op == token.LOR // the value that decides the operator alone
+			switch {
+			case cx && vx == absorbing:
+				return e0, true, absorbing
+			case cx && cy:
+				return e0, true, vy
+			case cx:
+				return y, false, false
+			case cy && vy != absorbing:
+				return x, false, false
+			case cy:
+				// X && false / X || true: constant as a guard (X has no side effects that matter for facts)
+				return e0, true, absorbing
+			}
+			if x != t.X || y != t.Y {
+				return &ast.BinaryExpr{X: x, OpPos: t.OpPos, Op: t.Op, Y: y}, false, false
+			}
+		}
+	}
+	return e0, false, false
 }
 
 func c12AssignedSince(g *FG, gd Guard, l Loc, objs map[types.Object]bool) bool {
